@@ -240,6 +240,9 @@ func (c *ctx) exec(what string, in []byte, crc bool, v verdict, src lzwork.Sourc
 	violate := func(key, format string, a ...any) {
 		c.add(vrt.Violation{Key: key, Desc: what + " [" + m + ", " + src.String() + ", buf " + rp.String() + "]: " + fmt.Sprintf(format, a...), Detail: det()})
 	}
+	if res.SourceDamage != "" {
+		violate("source-memory-modified", "reading the stream changed the memory it was served from: %s", res.SourceDamage)
+	}
 	if res.Spun {
 		c.o.Poisoned = true
 		violate("no-termination:cpu-spin", "one decompression (NewReader, Reads, Close) burnt %v of CPU time without any call returning: a call spins", lzwork.SpinCPU)
@@ -366,7 +369,7 @@ func (c *ctx) one(what string, in []byte, crc bool) {
 	v := refVerdict(in, crc)
 	j := c.j
 	c.j++
-	src := lzwork.Sources[j%5]
+	src := lzwork.Sources[j%uint64(len(lzwork.Sources))]
 	rp := bufPlans[(j/5)%5]
 	if j%7 == 5 {
 		// the stream is taken the way io.Copy takes it (from the start, or after a few Read calls, or behind a bufio.Reader)
@@ -378,7 +381,7 @@ func (c *ctx) one(what string, in []byte, crc bool) {
 		n := int64(len(v.out))
 		stop := []int64{0, 1, n / 2, n - 1, n, max(v.declared, 0) - 1}[(j/6)%6]
 		if stop >= 0 {
-			c.exec(what+"+early-close", in, crc, v, lzwork.Sources[(j/6)%5], bufPlans[(j/30)%5], stop)
+			c.exec(what+"+early-close", in, crc, v, lzwork.Sources[(j/6)%uint64(len(lzwork.Sources))], bufPlans[(j/30)%5], stop)
 		}
 	}
 }
@@ -395,7 +398,7 @@ func (c *ctx) all(what string, in []byte, crc bool) {
 	n := int64(len(v.out))
 	for _, stop := range []int64{0, 1, n / 2, n - 1, n} {
 		if stop >= 0 {
-			c.exec(what+"+early-close", in, crc, v, lzwork.Sources[int(stop)%5], bufPlans[int(stop/5)%5], stop)
+			c.exec(what+"+early-close", in, crc, v, lzwork.Sources[int(stop)%len(lzwork.Sources)], bufPlans[int(stop/5)%5], stop)
 		}
 	}
 }
